@@ -506,7 +506,7 @@ def main(tier):
     run.count("histories_from_initial_state", len(hists))
     run.count("de_bruijn_order", order)
     run.count("de_bruijn_calls", len(seq))
-    jobs = [("S", "fresh", hists[i:i + 400]) for i in range(0, len(hists), 400)] + [("S", "long", [s]) for s in segs]
+    jobs = [("S", "long", [s]) for s in segs] + [("S", "fresh", hists[i:i + 120]) for i in range(0, len(hists), 120)]
     sessions = []
     need = {}
     for out in mcx.pmap(_dispatch, jobs):
